@@ -20,6 +20,7 @@ import (
 	"verif/harness/sim"
 	"verifkit/bubble"
 	"verifkit/fakeredis"
+	"verifkit/resp"
 )
 
 type cOp struct {
@@ -79,6 +80,7 @@ type cRun struct {
 	Res     bubble.Result
 	Reads   []*cRead
 	Writes  []cWrite
+	Aborts  []cWrite // cache fetches refused at queueing time (abort-fetch events consumed)
 	Events  []fakeredis.Event
 	EpochMs int64 // unix ms of virtual time 0
 	Pending int
@@ -142,6 +144,38 @@ func cacheRun(t *testing.T, plan cPlan) (run cRun) {
 		}
 		for _, k := range plan.Initial {
 			write("set", k, 0)
+		}
+		armed := map[string]int{}
+		refused := map[int][]string{} // per connection: keys refused in the transaction that is being queued
+		txKeys := map[int][]string{}  // per connection: keys whose PTTL was seen in that transaction
+		srv.Hooks.AfterExec = func(c *fakeredis.Conn, req int, argv []string, reply resp.Value) {
+			// the callers learn of the refusal when the EXEC of that transaction is answered
+			if len(argv) == 1 && argv[0] == "EXEC" {
+				mu.Lock()
+				if len(refused[c.ID]) > 0 {
+					// the whole transaction is discarded: every key it was fetching (an MGET fetches several)
+					for _, k := range txKeys[c.ID] {
+						run.Aborts = append(run.Aborts, cWrite{AtUs: clock.Us(), Key: k, Kind: "abort-fetch"})
+					}
+				}
+				delete(refused, c.ID)
+				delete(txKeys, c.ID)
+				mu.Unlock()
+			}
+		}
+		srv.Hooks.Command = func(c *fakeredis.Conn, req int, argv []string) (resp.Value, bool) {
+			// PTTL is only sent by the client inside the transaction of a cache fetch
+			if len(argv) == 2 && argv[0] == "PTTL" {
+				mu.Lock()
+				defer mu.Unlock()
+				txKeys[c.ID] = append(txKeys[c.ID], argv[1])
+				if armed[argv[1]] > 0 {
+					armed[argv[1]]--
+					refused[c.ID] = append(refused[c.ID], argv[1])
+					return resp.Err("OOM command not allowed when used memory > 'maxmemory' (verif abort " + argv[1] + ")"), true
+				}
+			}
+			return resp.Value{}, false
 		}
 		var lmu sync.Mutex
 		batches := 0
@@ -301,6 +335,14 @@ func cacheRun(t *testing.T, plan cPlan) (run cRun) {
 		for _, e := range plan.Ext {
 			e := e
 			time.AfterFunc(time.Duration(e.AtUs)*time.Microsecond, func() {
+				if e.Kind == "abort-fetch" {
+					// the next cache fetch of this key is refused while it is queued (as -OOM, -MOVED, -NOPERM ... would):
+					// its EXEC aborts, the connection stays up
+					mu.Lock()
+					armed[e.Key]++
+					mu.Unlock()
+					return
+				}
 				if e.Kind == "kill-conns" {
 					for _, c := range srv.LiveConns() {
 						c.Kill()
